@@ -573,6 +573,8 @@ func defectsFor(r *vlib.Rand, p *program, s site, k int) []defect {
 	inExpr(17, "int-valued builtin modulo literal 0", "strtol(\"12\", 10) % 0")
 	inExpr(17, "arithmetic over an int-valued builtin modulo literal 0", "(3 + len(\"a\")) % 0")
 	inExpr(17, "literal divided by literal 0", "7 / 0")
+	inExpr(17, "literal 0 divided by literal 0", "0 / 0")
+	inExpr(17, "literal 0 modulo literal 0 inside a sum", "1 + 0 % 0")
 	return out
 }
 
